@@ -6,6 +6,7 @@ package c10
 
 import (
 	"database/sql"
+	"database/sql/driver"
 	"fmt"
 	"reflect"
 	"sort"
@@ -34,7 +35,35 @@ const (
 	kPTime    // *time.Time (tracked time fields)
 	kJSON     // struct value with serializer:json (text column holding its JSON)
 	kUnixtime // int64 with serializer:unixtime (datetime column)
+	kMoney    // struct implementing driver.Valuer/sql.Scanner with an IsZero() method of its own (text column)
 )
+
+// money is a decimal-like value type: IsZero() answers for the amount only, so {0, "EUR"} is NOT the Go zero
+// value although IsZero() says true. gorm's zero-ness is the Go zero value.
+type money struct {
+	Units int64
+	Cur   string
+}
+
+func (v money) IsZero() bool                 { return v.Units == 0 }
+func (v money) Value() (driver.Value, error) { return fmt.Sprintf("%d %s", v.Units, v.Cur), nil }
+func (v *money) Scan(src interface{}) error {
+	_, err := fmt.Sscanf(fmt.Sprint(norm(src)), "%d %s", &v.Units, &v.Cur)
+	if err != nil && v.Cur == "" {
+		return nil
+	}
+	return err
+}
+
+func moneyOf(c cell) money {
+	var v money
+	parts := strings.SplitN(c.(string), " ", 2)
+	fmt.Sscanf(parts[0], "%d", &v.Units)
+	if len(parts) == 2 {
+		v.Cur = parts[1]
+	}
+	return v
+}
 
 // jsonVal is the Go type of serializer:json fields.
 type jsonVal struct {
@@ -42,7 +71,7 @@ type jsonVal struct {
 	B int64
 }
 
-var kindNames = []string{"int", "string", "bool", "float", "*string", "time", "unixsec", "unixmilli", "unixnano", "*int", "sql.NullString", "*time", "json-struct", "unixtime-int"}
+var kindNames = []string{"int", "string", "bool", "float", "*string", "time", "unixsec", "unixmilli", "unixnano", "*int", "sql.NullString", "*time", "json-struct", "unixtime-int", "money-valuer"}
 
 func (k kind) String() string { return kindNames[k] }
 
@@ -227,6 +256,8 @@ func (f field) goType() reflect.Type {
 		return reflect.TypeOf(jsonVal{})
 	case kUnixtime:
 		return reflect.TypeOf(int64(0))
+	case kMoney:
+		return reflect.TypeOf(money{})
 	}
 	panic("harness: kind")
 }
@@ -235,7 +266,7 @@ func (f field) sqlType() string {
 	switch f.Kind {
 	case kInt, kUnixSec, kUnixMilli, kUnixNano, kPInt:
 		return "integer"
-	case kString, kPString, kNullStr, kJSON:
+	case kString, kPString, kNullStr, kJSON, kMoney:
 		return "text"
 	case kBool:
 		return "boolean"
@@ -537,6 +568,8 @@ func (m *model) sentinel(rk rowKey, ci int) cell {
 		return n + 2
 	case kJSON:
 		return fmt.Sprintf(`{"A":"r%dc%d","B":%d}`, id, ci, n)
+	case kMoney:
+		return fmt.Sprintf("%d SEN", n+3)
 	case kTime, kPTime, kUnixtime:
 		return seedBase.Add(time.Duration(id)*time.Hour + time.Duration(ci)*time.Minute)
 	case kUnixSec:
@@ -580,6 +613,8 @@ func zeroCell(f field) cell {
 		return `{"A":"","B":0}` // the serialized zero value
 	case kUnixtime:
 		return time.Unix(0, 0).UTC()
+	case kMoney:
+		return "0 " // money{}.Value()
 	}
 	panic("harness: kind")
 }
